@@ -290,7 +290,8 @@ func oracleExec(c *Ctx, cr *CaseResult) {
 			c.Check(name, false, key, in, got, want)
 		}
 		fromExec := strings.HasPrefix(o.errMsg, "exec failed: ") || strings.HasPrefix(o.errMsg, "help from ")
-		if o.errKind != "ok" && !fromExec && (nExec > 0 || nHandler > 0) {
+		// (a message masked because a token contains '%' cannot be attributed: not judged)
+		if o.errKind != "ok" && !fromExec && !o.masked && (nExec > 0 || nHandler > 0) {
 			fail("nothing-executes-on-error", "C09:exec-on-error", fmt.Sprintf("error %q with %d Execute and %d CommandHandler calls", o.errMsg, nExec, nHandler), "no invocation")
 			continue
 		}
